@@ -1,7 +1,7 @@
 //vp:property C31
 //vp:pkg ./model/histogram
 //vp:roots ./util/kahansum
-//vp:bounds bucket-wise addition and subtraction of two float histograms of the same schema (0) and zero threshold (FloatHistogram.Add / Sub / KahanAdd with addBuckets / kahanAddBuckets): layouts of up to 2 spans per histogram on the positive side, lengths 0..2 (zero-length spans included, also leading), first offset 0..1, later offsets 0..2, the whole case split; bucket counts are small concrete integers (so every sum is exact), the negative side one common bucket; the result holds, at every bucket index, the sum (difference) of the operands' counts, count/sum/zero count add up, and the operand is unchanged
+//vp:bounds bucket-wise addition and subtraction of two float histograms of the same schema (0) - or with the operand at schema 1, reduced to schema 0 first - and the same zero threshold (FloatHistogram.Add / Sub / KahanAdd with addBuckets / kahanAddBuckets): layouts of up to 2 spans per histogram on the positive side, lengths 0..2 (zero-length spans included, also leading), first offset 0..1, later offsets 0..2, the whole case split; bucket counts are small concrete integers (so every sum is exact), the negative side one common bucket; the result holds, at every bucket index, the sum (difference) of the operands' counts, count/sum/zero count add up, and the operand is unchanged
 //vp:assume concrete small integer counts: floating-point rounding, resolution reduction and zero-threshold reconciliation are outside (see DESIGN: symbolic float arithmetic is out of reach)
 package histogram
 
@@ -64,7 +64,8 @@ func vpH_C31_add_sub_small_integers() {
 	}
 	one := []Span{{Offset: 0, Length: 1}}
 	a := &FloatHistogram{Schema: 0, ZeroThreshold: 0.001, ZeroCount: 4, Count: 100, Sum: 8, PositiveSpans: aSp, PositiveBuckets: av, NegativeSpans: one, NegativeBuckets: []float64{7}}
-	b := &FloatHistogram{Schema: 0, ZeroThreshold: 0.001, ZeroCount: 1, Count: 10, Sum: 2, PositiveSpans: bSp, PositiveBuckets: bv, NegativeSpans: one, NegativeBuckets: []float64{2}}
+	bSchema := int32(vpShape("operandSchema", 0, 1)) // 1: the operand has twice the resolution and is reduced first
+	b := &FloatHistogram{Schema: bSchema, ZeroThreshold: 0.001, ZeroCount: 1, Count: 10, Sum: 2, PositiveSpans: bSp, PositiveBuckets: bv, NegativeSpans: one, NegativeBuckets: []float64{2}}
 	bCopy := b.Copy()
 	op := vpShape("op", 0, 2) // 0 Add, 1 Sub, 2 KahanAdd
 	var r *FloatHistogram
@@ -88,7 +89,16 @@ func vpH_C31_add_sub_small_integers() {
 	vpAssert(r.Count == 100+sign*10 && r.ZeroCount == 4+sign*1 && r.Sum == 8+sign*2, "count, zero count and sum add up")
 	for q := 0; q <= 7; q++ {
 		x, _ := vpXValAt(aSp, av, q)
-		y, _ := vpXValAt(bSp, bv, q)
+		y := 0.0
+		for j, k := range bIdx {
+			tq := k
+			if bSchema == 1 {
+				tq = ((k - 1) >> 1) + 1
+			}
+			if tq == q {
+				y += bv[j]
+			}
+		}
 		got, ok := vpXValAt(r.PositiveSpans, r.PositiveBuckets, q)
 		vpAssert(ok, "result spans match its buckets")
 		vpObserve("got", got)
